@@ -157,14 +157,23 @@ class Simulator(BaseSimObj):
         Returns:
             bool: True if the simulation is complete.
         """
-        while (
-            not self.event_queue.empty()
-            and not self._resolve
-            and (
-                self.max_recompute is None
-                or (self._iteration - self._last_schedule_update < self.max_recompute)
+        # The schedule handed in answers the pending recompute request, so it is always
+        # applied to the current period; after that, continue until the next one is due.
+        first_period = True
+        while not self.event_queue.empty() and (
+            first_period
+            or (
+                not self._resolve
+                and (
+                    self.max_recompute is None
+                    or (
+                        self._iteration - self._last_schedule_update
+                        < self.max_recompute
+                    )
+                )
             )
         ):
+            first_period = False
             self._update_schedules(new_schedule)
             if self.schedule_history is not None:
                 self.schedule_history[self._iteration] = new_schedule
